@@ -7,7 +7,7 @@ import networkx as nx
 from harness.common import *      # noqa
 from harness import common
 from harness.c08 import _topology
-from symx.core import SR, SI
+from symx.core import SR, SI, approx
 
 setup = common.setup
 
@@ -77,6 +77,39 @@ def h_fiber_export(ctx):
     p2 = by2['f'].to_json['params']
     for k in ('length', 'loss_coef', 'att_in', 'con_in', 'con_out'):
         ctx.prove(f'second export equals the first: {k}', eq(p1[k], p2[k]))
+
+
+def h_raman_fiber_export(ctx):
+    """RamanFiber: export -> reload gives an element with the same pumps (powers as seen by the solver, i.e. after the output
+    connector), temperature and parameters, for every connector loss and pump power; a second export equals the first"""
+    from harness import elems
+    symbolic_ctors(ctx)
+    eqpt = equipment()
+    con_out_lin = ctx.real('con_out_lin', lo=1, hi=2)
+    con_out = 10 * elems.log10(ctx, con_out_lin)
+    p1, p2 = ctx.real('pump1_w', lo=0.01, hi=1), ctx.real('pump2_w', lo=0.01, hi=1)
+    temp = ctx.real('temperature_k', lo=250, hi=350)
+    el = {'uid': 'rf', 'type': 'RamanFiber', 'type_variety': 'SSMF',
+          'params': {'length': 80, 'length_units': 'km', 'loss_coef': 0.2, 'att_in': 0, 'con_in': 0.5, 'con_out': con_out},
+          'operational': {'temperature': temp, 'raman_pumps': [
+              {'power': p1, 'frequency': 205e12, 'propagation_direction': 'counterprop'},
+              {'power': p2, 'frequency': 201e12, 'propagation_direction': 'coprop'}]}}
+    _, by = build_elements([deepcopy(el)], eqpt)
+    j1 = by['rf'].to_json
+    _, by2 = build_elements([deepcopy(j1)], eqpt)
+    a, b = by['rf'], by2['rf']
+    ctx.prove('same number of pumps after reload', len(a.raman_pumps) == len(b.raman_pumps) == 2)
+    for i, (x, y) in enumerate(zip(a.raman_pumps, b.raman_pumps)):
+        ctx.prove(f'pump {i}: power entering the fibre unchanged by export/reload', approx(y.power, x.power, 1e-9),
+                  info=dict(before=str(x.power), after=str(y.power)))
+        ctx.prove(f'pump {i}: frequency and direction unchanged', x.frequency == y.frequency and
+                  x.propagation_direction == y.propagation_direction)
+    ctx.prove('temperature unchanged', eq(a.temperature, b.temperature))
+    ctx.prove('output connector unchanged', eq(a.params.con_out, b.params.con_out))
+    j2 = b.to_json
+    for i in range(2):
+        ctx.prove(f'second export equals the first: pump {i} power',
+                  approx(j2['operational']['raman_pumps'][i]['power'], j1['operational']['raman_pumps'][i]['power'], 1e-9))
 
 
 # ---------------------------------------------------------------------------------- H17a line level (symbolic)
@@ -169,10 +202,18 @@ def h_pipeline(ctx, eol, source):
     else:
         topo = load_json(Path(common.EXAMPLE) / source)
         desc = dict(file=source)
-    desc = dict(desc, EOL=eol)
+    # library amplifiers with or without automatic output-VOA optimisation
+    auto_voa = ctx.choice('out_voa_auto of the library amplifiers', [False, True])
+    for a in eqpt['Edfa'].values():
+        a.out_voa_auto = auto_voa
+    desc = dict(desc, EOL=eol, out_voa_auto=auto_voa)
     g = network_from_json(deepcopy(topo), eqpt)
     design(g, deepcopy(eqpt))
     j1 = _canon(network_to_json(g))
+    # design the designed network object once more, in place (what a power sweep or a per-request redesign does)
+    design(g, deepcopy(eqpt))
+    d = _diff(_by_uid(j1), _by_uid(_canon(network_to_json(g))))
+    ctx.prove('designing the already designed network again changes nothing', not d, info=dict(desc, differences=d[:6], n=len(d)))
     # design the same input twice
     gb = network_from_json(deepcopy(topo), eqpt)
     design(gb, deepcopy(eqpt))
@@ -221,6 +262,7 @@ def jobs(tier):
     for nf in ((), ('gain',), ('delta_p',), ('tilt',), ('gain', 'delta_p', 'tilt')):
         js.append(dict(name=f'H17b:edfa_export_reload:none={"+".join(nf) or "-"}', fn='h_edfa_export', params=dict(none_fields=nf), cost=10))
     js.append(dict(name='H17b:fiber_export_reload', fn='h_fiber_export', cost=10))
+    js.append(dict(name='H17b:raman_fiber_export_reload', fn='h_raman_fiber_export', cost=10))
     for layout in ('single', 'single_user_values', 'spliced'):
         js.append(dict(name=f'H17a:line_export_reload_redesign:{layout}', fn='h_line_redesign', params=dict(layout=layout), cost=30,
                        continue_after_violation=True))
